@@ -27,6 +27,15 @@ def main():
             cid = "%d.%d" % (li, ci)
             cases.append((cid, case_script(cid, lp, cfg)))
             meta[cid] = (lp, cfg)
+    # boxed columns and ranged rows throughout (bound flips in both directions in the dual ratio test), mostly through the direct
+    # entry points with scaling off, where nothing re-derives the primal values between bound flips and the final test
+    for bi in range(120 if ck.thorough() else 24):
+        lp = boxed_ranged(ck.rng, name="bx%d" % bi)
+        for ci, (entry, sc) in enumerate((("DUAL", 0), ("PRIMAL", 0), ("DUAL", 1), ("EXACT D", 0))):
+            cfg = dict(entry=entry, pp=ck.rng.choice(PPRICE), dp=ck.rng.choice(DPRICE), scale=sc, warm="none")
+            cid = "bx%d.%d" % (bi, ci)
+            cases.append((cid, case_script(cid, lp, cfg)))
+            meta[cid] = (lp, cfg)
     # ---- edit histories: the certificate must hold against the LP *as currently defined through the API* ----
     for li, lp in enumerate(lps[: (300 if ck.thorough() else 45)]):
         n, m = len(lp["cols"]), len(lp["rows"])
